@@ -35,7 +35,7 @@ def base_calls(spec: NetSpec):
             + [("dest", d.node) for d in spec.dests])
 
 
-def orders(spec: NetSpec, max_full=6):
+def orders(spec: NetSpec, max_full=6, transpositions=2):
     calls = base_calls(spec)
     seen = set()
     out = []
@@ -57,7 +57,7 @@ def orders(spec: NetSpec, max_full=6):
             c = list(calls)
             c[a], c[b] = c[b], c[a]
             emit("1-transposition", c)
-            for a2, b2 in swaps:
+            for a2, b2 in (swaps if transpositions >= 2 else []):
                 c2 = list(c)
                 c2[a2], c2[b2] = c2[b2], c2[a2]
                 emit("2-transpositions", c2)
@@ -128,7 +128,7 @@ def check_spec(spec: NetSpec, label, st: Stats, plan):
         return [(f"C14/exception/{exc_site(e)}/{type(e).__name__}", f"base network: {exc_text(e)}", case0)]
     st.inc("executions", len(vecs) + len(dvecs))
     # (a) construction orders ---------------------------------------------------------
-    ords = orders(spec)
+    ords = orders(spec, plan.get("max_full", 6), plan.get("transpositions", 2))
     for oi, (oname, order) in enumerate(ords):
         st.inc("transitions", len(order))
         st.inc("orders")
@@ -244,14 +244,20 @@ def worker(item):
 def plans(tier, seed):
     pal = (seed + 2) % 3
     if tier == "quick":
-        jobs = [({"pset": 0, "d": 0, "sx_every": 12}, [(lab, s) for _, lab, s in all_specs(3, 3, 1, pal)])]
-        bounds = {"shapes": "(n,m)<=(3,3) c<=1", "vectors": "2 base vectors", "sx_orders": "every 12th order also through SX",
-                  "palette": pal}
+        jobs = [({"pset": 0, "d": 0, "sx_every": 12}, [(lab, s) for _, lab, s in all_specs(3, 3, 0, pal)]),
+                ({"pset": 0, "d": 0, "sx_every": 12, "max_full": 4, "transpositions": 1},
+                 [(lab, s) for _, lab, s in all_specs(3, 3, 1, pal) if lab.startswith("dev:")])]
+        bounds = {"shapes": "(n,m)<=(3,3): base+uniform configurations with all permutations (<=6 calls, else <=2 transpositions); "
+                            "single-element deviations with all permutations for <=4 calls, else all single transpositions",
+                  "vectors": "2 base vectors", "sx_orders": "every 12th order also through SX", "palette": pal}
     else:
-        a = [(lab, s) for _, lab, s in all_specs(3, 4, 1, pal)]
+        a = [(lab, s) for _, lab, s in all_specs(3, 4, 0, pal)]
+        a1 = [(lab, s) for _, lab, s in all_specs(3, 3, 1, pal) if lab.startswith("dev:")]
         b = [(lab, s) for _, lab, s in all_specs(4, 4, 0, pal) if s.n == 4]
-        jobs = [({"pset": 0, "d": 1, "sx_every": 6}, a), ({"pset": 1, "d": 0, "sx_every": 12}, b)]
-        bounds = {"shapes": "(3,4) c<=1 with single excursions on SX; 4-node shapes (4,4) base+uniform", "palette": pal}
+        jobs = [({"pset": 0, "d": 1, "sx_every": 6}, a), ({"pset": 2, "d": 0, "sx_every": 12}, a1),
+                ({"pset": 1, "d": 0, "sx_every": 12, "transpositions": 1}, b)]
+        bounds = {"shapes": "(3,4) base+uniform with single excursions on SX; (3,3) single-element deviations; 4-node shapes (4,4) "
+                            "base+uniform with all permutations for <=6 calls else single transpositions", "palette": pal}
     return jobs, bounds
 
 
